@@ -15,7 +15,11 @@ func init() {
 func tzOf(st Step) (int, bool) {
 	for _, e := range st.Env {
 		if strings.HasPrefix(e, "TZ=VERIFTZ:") {
-			n, err := strconv.Atoi(strings.TrimPrefix(e, "TZ=VERIFTZ:"))
+			spec := strings.TrimPrefix(e, "TZ=VERIFTZ:")
+			if i := strings.IndexByte(spec, '/'); i >= 0 {
+				spec = spec[:i] // a zone with a transition: the offset in force at the fixed instant comes first
+			}
+			n, err := strconv.Atoi(spec)
 			return n, err == nil
 		}
 	}
@@ -144,7 +148,13 @@ func checkC12(e *RunEnv) *CheckResult {
 			env := fmt.Sprintf("TZ=VERIFTZ:%d", off)
 			cs = append(cs, Case{Base: base, BaseName: "S0+staged", BaseSeed: seed, Steps: []Step{Run("commit", "-m", "m").WithEnv(env).WithTags(offTags(off)...)}})
 		}
-		names := []string{"A", "Al Bo", "Al  Bo", "é ü", "O'N", "a>b", "x@y", strings.Repeat("N", 200)}
+		// zones with a transition close to the instant of the commit (the end of summer time 10 minutes ago / in
+		// 10 minutes, one hour and half an hour wide, west and east of Greenwich; and its beginning)
+		for _, z := range []string{"-240/-180/-600", "-180/-240/600", "60/120/-600", "120/60/600", "570/630/-600", "630/570/600", "-180/-240/-600", "120/60/-600", "-240/-180/-3599", "60/120/3599"} {
+			now, _ := strconv.Atoi(z[:strings.IndexByte(z, '/')])
+			cs = append(cs, Case{Base: base, BaseName: "S0+staged", BaseSeed: seed, Steps: []Step{Run("commit", "-m", "m").WithEnv("TZ=VERIFTZ:" + z).WithTags(append(offTags(now), "zone-transition-near")...)}})
+		}
+		names := []string{"Build Bot #7", "Ann -> Bee", "1 > 2", "Bee >", "A", "Al Bo", "Al  Bo", "é ü", "O'N", "a>b", "x@y", strings.Repeat("N", 200)}
 		emails := []string{"a@b.co", "a.b+c-d_e@x-y.z9.org", "A9@a1.b2.info"}
 		messages := []string{"", "m", "a: b", "l1\nl2", "l1\n\nl3", "\nlead", "trail\n", "é", strings.Repeat("x", 4096), "tree deadbeef", "author x", "100% of %s %d", "50%",
 			strings.Repeat(strings.Repeat("forty kilobytes in eleven lines ", 120)+"\n", 11) + "end", "subject\n\n" + strings.Repeat("y", 70000)}
